@@ -5,7 +5,8 @@ import ast
 
 from sa.astx import dotted, src
 from sa.selftest import Mutant, Silent
-from sa.props._lib_a import (DEFER, Q, CallGraph, ICModel, RunShape, avoiding_path, call_nodes, calls_of, guarded_by_any,
+from sa.source import AnalysisError
+from sa.props._lib_a import (DEFER, Q, CallGraph, ICModel, RunShape, group, avoiding_path, call_nodes, calls_of, guarded_by_any,
                              aliases, is_const, is_name, known_bool, method_call, params, stmt_nodes, sub0, succ_on, targets_values)
 
 PROPERTY = "C02"
@@ -36,24 +37,76 @@ def check(ctx):
     mod = ctx.mod(DEFER)
     cg = CallGraph(mod)
     ctx.need(RUN in cg.funcs and IC in cg.funcs, "Deferred._runCallbacks and _inlineCallbacks in the call graph")
-    S = RunShape(ctx)
-    g, q = S.g, S.q
+    back = cg.reaching(RUN)                       # everything that can (transitively) start the chain loop
+    reach_ic = cg.reaching(IC)
 
     # ======================================================================================
     # (a) no re-entry from _runCallbacks
     # ======================================================================================
-    back = cg.reaching(RUN)                       # everything that can (transitively) start the chain loop
-    closure = cg.reach_from(RUN)                  # everything the chain loop can call through resolved edges
-    nsites = 0
-    for fn in sorted(closure):
-        for s in cg.sites[fn]:
-            nsites += 1
-            bad = s.target in back
-            how = " -> ".join(cg.chain_to(s.target, RUN) or [s.target]) if bad else ""
-            ctx.check(not bad, "no-reentry/run-callbacks", ctx.construct(Q + fn, s.node),
-                      f"the chain loop calls {s.target}, which runs callbacks again ({how}): one stack frame per chained Deferred",
-                      detail=f"{s.kind} -> {s.target}")
-    # every call expression in _runCallbacks is accounted for: resolved (above), the user call-out, or a known-opaque helper
+    with group(ctx, "run-callbacks/call-graph"):
+        closure = cg.reach_from(RUN)              # everything the chain loop can call through resolved edges
+        nsites = 0
+        for fn in sorted(closure):
+            for s in cg.sites[fn]:
+                nsites += 1
+                bad = s.target in back
+                how = " -> ".join(cg.chain_to(s.target, RUN) or [s.target]) if bad else ""
+                ctx.check(not bad, "no-reentry/run-callbacks", ctx.construct(Q + fn, s.node),
+                          f"the chain loop calls {s.target}, which runs callbacks again ({how}): one stack frame per chained Deferred",
+                          detail=f"{s.kind} -> {s.target}")
+        ctx.floor("no-reentry/run-callbacks", nsites, 1)
+    S = None
+    with group(ctx, "run-callbacks/shape"):
+        S = RunShape(ctx)
+    if S is not None:
+        with group(ctx, "run-callbacks/calls"):
+            _check_run_calls(ctx, cg, S, back)
+        with group(ctx, "run-callbacks/iterative"):
+            _check_iterative(ctx, S)
+
+    # ======================================================================================
+    # (b) _inlineCallbacks
+    # ======================================================================================
+    M = None
+    with group(ctx, "inline/model"):
+        M = ICModel(ctx)
+    if M is not None:
+        with group(ctx, "inline/registrations"):
+            _check_registrations(ctx, cg, M, reach_ic)
+        for name, (H, k) in sorted(M.helpers.items()):
+            with group(ctx, f"inline/helper {name}"):
+                _check_helper(ctx, M, name, H, k)
+        with group(ctx, "inline/cell-states"):
+            _check_cell_states(ctx, M)
+        with group(ctx, "inline/cycles"):
+            _check_cycles(ctx, cg, M, reach_ic)
+
+    # ======================================================================================
+    # (c) __iter__ / __await__
+    # ======================================================================================
+    with group(ctx, "await"):
+        ctx.func(DEFER, "Deferred.__iter__")
+        cls = ctx.cls(DEFER, "Deferred")
+        aw = [st for st in cls.body if isinstance(st, ast.Assign) and any(is_name(t, "__await__") for t in st.targets)]
+        ctx.check(("Deferred.__await__" not in cg.funcs and len(aw) == 1 and is_name(aw[0].value, "__iter__")) or "Deferred.__await__" in cg.funcs,
+                  "await/alias", Q + "Deferred.__await__", "__await__ is neither __iter__ nor a method")
+        for nm in ("Deferred.__iter__",) + (("Deferred.__await__",) if "Deferred.__await__" in cg.funcs else ()):
+            fn = cg.funcs[nm]
+            for s in cg.sites[nm]:
+                ctx.check(False if s.target in back or s.target in reach_ic else True, "await/no-engine-call", ctx.construct(Q + nm, s.node),
+                          f"awaiting a Deferred calls {s.target}, which runs callbacks / the generator driver")
+            calls = [x for x in ast.walk(fn) if isinstance(x, ast.Call)]
+            for x in calls:
+                if id(x) not in {id(s.node) for s in cg.sites[nm]}:
+                    ctx.ok("await/no-engine-call", ctx.construct(Q + nm, x), "unresolved (builtin / Failure method)")
+            ctx.check(not any(isinstance(x, ast.YieldFrom) for x in ast.walk(fn)) and
+                      all(is_name(x.value, "self") for x in ast.walk(fn) if isinstance(x, ast.Yield)), "await/yields-itself", Q + nm,
+                      "awaiting does not simply yield the Deferred to the driver (delegation would nest one frame per await)")
+
+
+def _check_run_calls(ctx, cg, S, back):
+    """every call expression in _runCallbacks is accounted for: resolved (call-graph rule), the user call-out, or external"""
+    q = S.q
     resolved_ids = {id(s.node) for s in cg.sites[RUN]}
     n_calls = 0
     for x in ast.walk(S.f):
@@ -70,18 +123,26 @@ def check(ctx):
         ctx.check(tgt is None or not any(f"{c}.{tgt}" in back for c in cg.family), "no-reentry/external-call",
                   ctx.construct(q, x), f"the chain loop calls a local alias of .{tgt}, which runs callbacks again",
                   detail="not resolvable inside defer.py (builtin / imported / container method): cannot re-enter by assumption")
-    ctx.floor("no-reentry/run-callbacks", nsites, 2)
-    ctx.floor("no-reentry/calls-seen", n_calls, 8)
+    ctx.floor("no-reentry/calls-seen", n_calls, 4)
 
-    # the hand-over must be iterative: the waiting Deferred is pushed on the stack the loop reads
+
+def _check_iterative(ctx, S):
+    """the hand-over is iterative: the waiting Deferred is pushed on the stack the loop reads"""
+    g, q = S.g, S.q
     chain, chainee = S.chain, S.chainee
-    pushes = call_nodes(g, lambda c: method_call(c, "append", chain) and len(c.args) == 1 and is_name(c.args[0], chainee))
+    ctx.check(chain is not None, "iterative/loop-over-chain-stack", q + " | <explicit chain stack>",
+              "_runCallbacks has no explicit stack of Deferreds from which the current one is taken: a _CONTINUE hand-over can only be "
+              "processed by a nested call, one frame per chained Deferred")
+    pushes = call_nodes(g, lambda c: chain is not None and method_call(c, "append", chain) and len(c.args) == 1 and is_name(c.args[0], chainee))
     cont_T = [d for t in S.cont_tests for d, l in g.succ[t] if l in ("T", "F") and S._cont_fact(g.node(t).ast, l == "T") is True]
+    ctx.check(bool(cont_T), "iterative/handover-uses-chain-stack", q + " | <_CONTINUE marker recognised>",
+              "the _CONTINUE marker is no longer recognised: chained Deferreds are resumed some other way")
     wit = avoiding_path(g, cont_T, set(S.pops) | set(S.binds) | {g.exit}, pushes, strict=False) if cont_T else None
-    ctx.check(bool(cont_T) and bool(pushes) and wit is None, "iterative/handover-uses-chain-stack", q + " | <_CONTINUE branch>",
+    ctx.check(bool(pushes) and wit is None, "iterative/handover-uses-chain-stack", q + " | <_CONTINUE branch>",
               "the waiting Deferred is not pushed on the explicit chain stack on some path of the hand-over", witness=g.describe(wit))
     loops = [n.id for n in g.nodes if n.kind == "join" and n.note == "while" and g.reachable(n.id)]
-    outer = [h for h in loops if any(t.kind == "test" and is_name(t.ast, chain) for t in (g.node(d) for d, _ in g.succ[h]))]
+    outer = [h for h in loops if chain is not None and any(t.kind == "test" and any(is_name(x, chain) for x in ast.walk(t.ast))
+                                                           for t in (g.node(d) for d, _ in g.succ[h]) if t.ast is not None)]
     ctx.check(bool(outer), "iterative/loop-over-chain-stack", q + " | <while chain>",
               "_runCallbacks no longer loops while the chain stack is non-empty")
     for p in pushes:
@@ -95,25 +156,54 @@ def check(ctx):
     ctx.check(bool(S.regs), "iterative/raw-registration", q + " | <registration of the continuation>",
               "no raw `callbacks.append(current._continuation())` found: chaining goes through an API that may run callbacks")
 
-    # ======================================================================================
-    # (b) _inlineCallbacks
-    # ======================================================================================
-    M = ICModel(ctx)
-    ig, iq, W = M.g, M.q, M.W
-    H = M.helper
-    hq = Q + M.helper_name
-    hg = ctx.cfg(H)
-    # position of the cell list among the helper's parameters
+
+def _check_registrations(ctx, cg, M, reach_ic):
+    """Every callable registered on an awaited object, for each outcome, is a helper that re-enters
+    _inlineCallbacks only under the waiting-cell guard."""
+    iq = M.q
+    ctx.check(bool(M.regs), "inline/registration-present", iq,
+              "_inlineCallbacks registers nothing on the Deferred the generator yielded: the generator is never resumed from it")
+    ctx.check(M.W is not None, "inline/waiting-cell-present", iq,
+              "_inlineCallbacks has no `waiting` cell list: nothing can tell a synchronous firing from a late one, so resumption must recurse")
     for r in M.regs:
         c = M.reg_calls[r]
-        k = [i for i, a in enumerate(c.args) if is_name(a, W)][0]
-        hp = params(H)
-        ctx.need(len(hp) > k, "helper signature has a parameter for the waiting cell")
-        Wp = hp[k]
-        ctx.check(is_name(c.args[0], M.helper_name), "inline/registration-shape", ctx.construct(iq, c),
-                  "the helper is not the first argument of the registration (its extra arguments would be shifted)")
+        for outcome, callee, extra in M.routes[r]:
+            what = "success" if outcome == "ok" else "failure"
+            cons = ctx.construct(iq, c) + f" [{what}]"
+            if callee is None:
+                ctx.check(False, "inline/both-outcomes-guarded", cons,
+                          f"a {what} of the awaited Deferred is not routed to the waiting-cell helper ({c.func.attr}): the generator is never resumed for it")
+                continue
+            tg = cg._resolve_name(IC, callee.id) if isinstance(callee, ast.Name) else []
+            if isinstance(callee, ast.Name) and callee.id in M.helpers:
+                ctx.ok("inline/registered-callable-guarded", cons, f"{callee.id} receives the waiting cell; its body is decided by the helper rules")
+                ctx.ok("inline/both-outcomes-guarded", cons, f"{what} -> {callee.id}")
+                continue
+            if tg and any(t in reach_ic for t in tg):
+                ctx.check(False, "inline/registered-callable-guarded", cons,
+                          f"`{src(callee)}` is registered for the {what} of the awaited Deferred and reaches _inlineCallbacks without the waiting-cell "
+                          f"guard ({' -> '.join(cg.chain_to(tg[0], IC) or tg[:1])}): an already-fired Deferred re-enters the driver recursively, one "
+                          "frame per await (RecursionError for a few hundred pre-fired awaits)")
+                continue
+            if tg:
+                ctx.check(False, "inline/both-outcomes-guarded", cons,
+                          f"`{src(callee)}` handles the {what} of the awaited Deferred but never resumes the generator")
+                continue
+            raise AnalysisError(f"C02: callable `{src(callee)}` registered on the awaited object cannot be resolved")
+        ctx.check(is_name(c.func.value, M.p_result), "inline/registration-shape", ctx.construct(iq, c),
+                  "the registration is not made on the object the generator yielded")
+
+
+def _check_helper(ctx, M, name, H, k):
+    hq = Q + name
+    hg = ctx.cfg(H)
+    hp = params(H)
+    if len(hp) <= k:
+        ctx.check(False, "inline/registration-shape", hq, f"{name} has no parameter for the waiting cell passed as extra argument {k}")
+        return
+    Wp = hp[k]
     # (i) helper: the re-entry is on the false branch of `waiting[0]`
-    Wa, Ra = aliases(H, Wp), aliases(H, params(H)[0])
+    Wa, Ra = aliases(H, Wp), aliases(H, hp[0])
     hcell = lambda e: any(sub0(e, w, 0) for w in Wa)
     recalls = call_nodes(hg, lambda c: is_name(c.func, IC))
     ctx.check(bool(recalls), "inline/helper-resumes", hq, "the helper never resumes the generator")
@@ -140,22 +230,25 @@ def check(ctx):
         ctx.check(known_bool(hg, n, hcell) is True, "inline/helper-clears-cell", ctx.construct(hq, hg.node(n).ast),
                   "the helper writes the waiting cell although the loop is not waiting for it")
 
+
+def _check_cell_states(ctx, M):
+    ig, iq, W = M.g, M.q, M.W
     # (ii)/(iii) cell states in the loop
     for r in M.regs:
         st = M.at(r)
-        bad = sorted((c, p, f) for (c, p, f) in st if c is not True or p != 0 or f != 0)
+        bad = sorted(((c, p, f) for (c, p, f) in st if c is not True or p != 0 or f != 0), key=str)
         ctx.check(bool(st) and not bad, "inline/cell-true-at-registration", ctx.construct(iq, M.reg_calls[r]),
                   f"the helper can be registered in state (waiting[0], pending, fired) = {bad[:3]}: with waiting[0] false an already-fired "
                   "Deferred makes the helper call _inlineCallbacks recursively, once per await")
     for a, states in _exit_states(M):
         n = ig.node(a)
-        bad = sorted(s for s in states if not (s[2] == 1 or (s[1] == 1 and s[0] is False)))
+        bad = sorted((s for s in states if not (s[2] == 1 or (s[1] == 1 and s[0] is False))), key=str)
         ctx.check(not bad, "inline/return-leaves-a-resumer", ctx.construct(iq, n.ast) + f" @{_which(M, a)}",
                   f"_inlineCallbacks can return in state (waiting[0], pending, fired) = {bad[:3]}: neither the result Deferred fired nor "
                   "a helper left that will re-enter (waiting[0] must be False while the helper is pending)")
     for n in M.resumes:
         st = M.at(n)
-        bad = sorted(s for s in st if s[1] == 1 or s[2] == 1)
+        bad = sorted((s for s in st if s[1] == 1 or s[2] == 1), key=str)
         ctx.check(bool(st) and not bad, "inline/resume-only-with-result", ctx.construct(iq, ig.node(n).ast),
                   f"the generator can be resumed in state {bad[:3]}: while the awaited Deferred is still pending or after the result fired")
     ctx.check(bool(M.cell_tests), "inline/loop-tests-cell", iq, f"the loop never tests `{W}[0]` after registering the helper")
@@ -164,14 +257,16 @@ def check(ctx):
         ctx.check(ig.path([r], M.resumes, edge_ok=lambda a, b, l: l != "exc", strict=True) is not None, "inline/loop-unfolds",
                   ctx.construct(iq, M.reg_calls[r]), "after a synchronous firing control does not return to the resume point inside the same frame")
 
-    # cycles through _inlineCallbacks in the call graph
-    reach_ic = cg.reaching(IC)
+
+def _check_cycles(ctx, cg, M, reach_ic):
+    """cycles through _inlineCallbacks in the call graph"""
+    ig, iq = M.g, M.q
     for s in cg.sites[IC]:
         if s.target not in reach_ic:
             ctx.ok("inline/no-other-cycle", ctx.construct(iq, s.node), f"{s.kind} -> {s.target}: does not lead back")
             continue
         nodes = ig.ids_of(s.node)
-        if s.kind == "ref" and s.target == M.helper_name and all(n in M.regs for n in nodes) and nodes:
+        if s.kind == "ref" and s.target in M.helpers and nodes and all(n in M.regs for n in nodes):
             ctx.ok("inline/no-other-cycle", ctx.construct(iq, s.node), "registration edge decided by the cell propagation")
             continue
         if s.kind == "call" and s.target == "_cancellableInlineCallbacks":
@@ -182,30 +277,10 @@ def check(ctx):
             continue
         ctx.check(False, "inline/no-other-cycle", ctx.construct(iq, s.node),
                   f"_inlineCallbacks reaches itself through {s.target} ({' -> '.join(cg.chain_to(s.target, IC) or [s.target])})")
-    for s in cg.sites[M.helper_name]:
-        if s.target in reach_ic and not (s.kind == "call" and s.target == IC):
-            ctx.check(False, "inline/no-other-cycle", ctx.construct(hq, s.node), f"the helper reaches _inlineCallbacks through {s.target}")
-
-    # ======================================================================================
-    # (c) __iter__ / __await__
-    # ======================================================================================
-    ctx.func(DEFER, "Deferred.__iter__")
-    cls = ctx.cls(DEFER, "Deferred")
-    aw = [st for st in cls.body if isinstance(st, ast.Assign) and any(is_name(t, "__await__") for t in st.targets)]
-    ctx.check(("Deferred.__await__" not in cg.funcs and len(aw) == 1 and is_name(aw[0].value, "__iter__")) or "Deferred.__await__" in cg.funcs,
-              "await/alias", Q + "Deferred.__await__", "__await__ is neither __iter__ nor a method")
-    for nm in ("Deferred.__iter__",) + (("Deferred.__await__",) if "Deferred.__await__" in cg.funcs else ()):
-        fn = cg.funcs[nm]
-        for s in cg.sites[nm]:
-            ctx.check(False if s.target in back or s.target in reach_ic else True, "await/no-engine-call", ctx.construct(Q + nm, s.node),
-                      f"awaiting a Deferred calls {s.target}, which runs callbacks / the generator driver")
-        calls = [x for x in ast.walk(fn) if isinstance(x, ast.Call)]
-        for x in calls:
-            if id(x) not in {id(s.node) for s in cg.sites[nm]}:
-                ctx.ok("await/no-engine-call", ctx.construct(Q + nm, x), "unresolved (builtin / Failure method)")
-        ctx.check(not any(isinstance(x, ast.YieldFrom) for x in ast.walk(fn)) and
-                  all(is_name(x.value, "self") for x in ast.walk(fn) if isinstance(x, ast.Yield)), "await/yields-itself", Q + nm,
-                  "awaiting does not simply yield the Deferred to the driver (delegation would nest one frame per await)")
+    for name in sorted(M.helpers):
+        for s in cg.sites.get(name, []):
+            if s.target in reach_ic and not (s.kind == "call" and s.target == IC):
+                ctx.check(False, "inline/no-other-cycle", ctx.construct(Q + name, s.node), f"the helper reaches _inlineCallbacks through {s.target}")
 
 
 def _local_method_alias(f, name):
@@ -274,6 +349,18 @@ MUTANTS = [
     Mutant("prefired-resumes-by-recursion", D, "            result = waiting[1]\n            # Reset waiting to initial values for next loop.",
            "            return _inlineCallbacks(waiting[1], gen, status, context)\n            # Reset waiting to initial values for next loop.",
            expect_rule="inline/no-other-cycle"),
+    Mutant("failure-registered-straight-on-driver", D, "result.addBoth(_gotResultInlineCallbacks, waiting, gen, status, context)",
+           "result.addCallbacks(_gotResultInlineCallbacks, _inlineCallbacks, callbackArgs=(waiting, gen, status, context), errbackArgs=(gen, status, context))",
+           expect_rule="inline/registered-callable-guarded"),
+    Mutant("success-only-registration", D, "result.addBoth(_gotResultInlineCallbacks, waiting, gen, status, context)",
+           "result.addCallback(_gotResultInlineCallbacks, waiting, gen, status, context)", expect_rule="inline/both-outcomes-guarded"),
+    Mutant("registered-through-lambda-on-driver", D, "result.addBoth(_gotResultInlineCallbacks, waiting, gen, status, context)",
+           "result.addBoth(lambda r: _inlineCallbacks(r, gen, status, context))\n            waiting[0] = False", expect_rule="inline/"),
+    Mutant("chain-stack-removed-recursive-handover", D, "        chain: List[Deferred[Any]] = [self]\n\n        while chain:\n            current = chain[-1]\n",
+           "        current = self\n        if True:\n",
+           more=[(D, "                    chainee.paused -= 1\n                    chain.append(chainee)\n", "                    chainee.paused -= 1\n                    chainee._runCallbacks()\n"),
+                 (D, "                chain.pop()\n", "                pass\n")],
+           expect_rule="iterative/loop-over-chain-stack"),
 ]
 SILENT = [
     Silent("rename-helper-params", D, "    if waiting[0]:\n        waiting[0] = False\n        waiting[1] = r\n    else:\n        _inlineCallbacks(r, gen, status, context)\n",
